@@ -34,7 +34,9 @@ ASSUMPTIONS = [
 UTC = datetime.timezone.utc
 TS = [None, datetime.datetime(2020, 1, 1, tzinfo=UTC), datetime.datetime(2020, 1, 2, tzinfo=UTC),
       datetime.datetime(2019, 12, 31, tzinfo=UTC)]
-MIMES = [None, 'text/plain; charset="utf8"', "application/octet-stream"]
+MIMES = [None, 'text/plain; charset="utf8"', "application/octet-stream",
+         # text in another charset / with none declared (ISO-8859-1 by the RFC): still text, e.g. a skip reason
+         'text/plain; charset="iso-8859-1"', "text/plain"]
 INTERIM = (None, "inprogress")
 
 
@@ -267,6 +269,10 @@ def x_callbacks(ctx, case):
     ExtendedToStreamDecorator itself is): tests still running when the run stops are flushed as in StreamSummary."""
     import testtools
     events = case["events"]
+    return _callbacks(ctx, case, testtools, events)
+
+
+def _callbacks(ctx, case, testtools, events):
     got = []
     holder = {}
 
@@ -315,7 +321,27 @@ def x_callbacks(ctx, case):
     return True
 
 
-SUBCHECKS = {"seq": x_seq, "two_runs": x_two_runs, "callbacks": x_callbacks}
+def _guarded(fn, who):
+    """An exception coming out of testtools on well-formed events is the consumer's fault, not the harness'."""
+    def run(ctx, case):
+        try:
+            return fn(ctx, case)
+        except Exception as exc:  # noqa
+            import traceback
+            t = exc.__traceback__
+            while t.tb_next is not None:
+                t = t.tb_next
+            if "/tvm/" in t.tb_frame.f_code.co_filename:      # raised by the harness' own code
+                raise
+            tb = traceback.format_exc()
+            ctx.check(False, "consumer.accepts-every-event",
+                      lambda: {"consumer": who, "error": repr(exc), "traceback": tb[-1500:], "events": case.get("events")})
+            return True
+    return run
+
+
+SUBCHECKS = {"seq": x_seq, "two_runs": _guarded(x_two_runs, "StreamToDict / StreamSummary over two runs"),
+             "callbacks": _guarded(x_callbacks, "StreamToDict / StreamSummary (callbacks sub-check)")}
 
 
 def alphabet():
@@ -348,7 +374,13 @@ def random_event(rng):
         e["fn"] = rng.choice(["f", "g", "reason", "traceback"])
         e["fb"] = rng.choice(["", "31", "3232", "c3a9"])
         # the attachment called 'reason' is by convention text (StreamSummary renders it)
-        e["mt"] = 1 if e["fn"] == "reason" else rng.randrange(3)
+        if e["fn"] == "reason":
+            # (every chunk of one attachment declares the same type: the reason's charset goes with the test id)
+            e["mt"] = {"b": 3, "c": 4}.get(e["id"], 1)
+            if e["mt"] in (3, 4):
+                e["fb"] = rng.choice(["", "31", "e974e9", "a0"])        # bytes that are Latin-1 text and not UTF-8
+        else:
+            e["mt"] = rng.randrange(3)
         e["eof"] = rng.random() < 0.5
     if rng.random() < 0.8:
         e["ts"] = rng.randrange(4)
